@@ -21,8 +21,10 @@ NSrc == 2 + NPlugins                       \* 1 = environment, 2 = code, 3.. = p
 Builtin == 0                               \* owner of the SDK keys and of the service-name fallback
 Unset == 99
 
-VARIABLES srcs,    \* srcs[i] = [keys, schema, blank] of source i (environment's schema is always "");
+VARIABLES srcs,    \* srcs[i] = [keys, schema, blank, emptyVar] of source i (environment's schema is always "");
                    \*   blank: the service name it provides is an empty string
+                   \*   emptyVar (environment only): DEEP_SERVICE_NAME is exported but empty while the name comes from
+                   \*   DEEP_RESOURCE_ATTRIBUTES - an empty variable is an unset variable, it changes nothing
           pc,      \* 0 = choosing the sources; i in 1..NSrc = source i is merged next; NSrc + 1 = done
           acc,     \* the resource so far: [owner : Keys -> source index | Builtin | Unset, schema]
           blankSvc,\* the service name currently in the resource is an empty string
@@ -35,12 +37,13 @@ Init == srcs = <<>> /\ pc = 0 /\ acc = [owner |-> [k \in Keys |-> Unset], schema
         /\ blankSvc = FALSE
         /\ kept = {}
 
-Provide(ks, sc, bl) ==
+Provide(ks, sc, bl, ev) ==
     /\ pc = 0 /\ Len(srcs) < NSrc
+    /\ (ev => (Len(srcs) = 0 /\ "svc" \in ks /\ ~bl))
     /\ (Len(srcs) = 0 => sc = "")
     /\ (bl => ("svc" \in ks /\ Len(srcs) < 2))     \* only the environment or the code can supply an empty name here
     /\ ((NoCode /\ Len(srcs) = 1) => (ks = {} /\ sc = "" /\ ~bl))
-    /\ srcs' = Append(srcs, [keys |-> ks, schema |-> sc, blank |-> bl])
+    /\ srcs' = Append(srcs, [keys |-> ks, schema |-> sc, blank |-> bl, emptyVar |-> ev])
     /\ UNCHANGED <<pc, acc, blankSvc, fellBack, kept>>
 
 Begin == pc = 0 /\ Len(srcs) = NSrc /\ pc' = 1 /\ UNCHANGED <<srcs, acc, blankSvc, fellBack, kept>>
@@ -67,7 +70,7 @@ MergeNext ==
     /\ pc' = pc + 1
     /\ UNCHANGED srcs
 
-Next == (\E ks \in SUBSET Keys, sc \in Schemas, bl \in BOOLEAN : Provide(ks, sc, bl)) \/ Begin \/ MergeNext
+Next == (\E ks \in SUBSET Keys, sc \in Schemas, bl \in BOOLEAN, ev \in BOOLEAN : Provide(ks, sc, bl, ev)) \/ Begin \/ MergeNext
         \/ (pc = NSrc + 1 /\ UNCHANGED vars)
 
 Spec == Init /\ [][Next]_vars
